@@ -144,10 +144,10 @@ theorem parseAllContactValues_resume (b s : Buf) (offs : Nat) (c : PContacts) (h
     (ho : offs ≤ b.size) {o' : Nat} {c' : PContacts}
     (hr : parseAllContactValues b offs c = (o', Err.moreBytes, c')) :
     RR PContacts.obs (parseAllContactValues (b ++ s) o' c') (parseAllContactValues (b ++ s) offs c) ∧
-      ctOK (b ++ s) o' c' ∧ offs ≤ o' ∧ o' ≤ b.size := by
+      ctOK (b ++ s) o' c' ∧ c'.cur.state ≠ .fin ∧ offs ≤ o' ∧ o' ≤ b.size := by
   unfold parseAllContactValues at hr ⊢
   have := contactsLoop_resume b s offs _ (ctOK_entry hok ho) ho hr
-  refine ⟨?_, this.2.1, this.2.2.1, this.2.2.2.1⟩
+  refine ⟨?_, this.2.1, this.2.2.2.2, this.2.2.1, this.2.2.2.1⟩
   -- the suspended element is not "parsed", so the wrapper leaves the object as it is
   have hnf := this.2.2.2.2
   have hc : (if c'.n ≥ c'.vals.size && c'.last.parsed then { c' with last := {} } else c') = c' := by
@@ -342,10 +342,10 @@ theorem parseAllPAIValues_resume (b s : Buf) (offs : Nat) (c : PPAIs) (hok : paO
     (ho : offs ≤ b.size) {o' : Nat} {c' : PPAIs}
     (hr : parseAllPAIValues b offs c = (o', Err.moreBytes, c')) :
     RR PPAIs.obs (parseAllPAIValues (b ++ s) o' c') (parseAllPAIValues (b ++ s) offs c) ∧
-      paOK (b ++ s) o' c' ∧ offs ≤ o' ∧ o' ≤ b.size := by
+      paOK (b ++ s) o' c' ∧ c'.cur.state ≠ .fin ∧ offs ≤ o' ∧ o' ≤ b.size := by
   unfold parseAllPAIValues at hr ⊢
   have := paisLoop_resume b s offs _ (paOK_entry hok ho) ho hr
-  refine ⟨?_, this.2.1, this.2.2.1, this.2.2.2.1⟩
+  refine ⟨?_, this.2.1, this.2.2.2.2, this.2.2.1, this.2.2.2.1⟩
   -- the suspended element is not "parsed", so the wrapper leaves the object as it is
   have hnf := this.2.2.2.2
   have hc : (if c'.n ≥ c'.vals.size && c'.last.parsed then { c' with last := {} } else c') = c' := by
